@@ -331,7 +331,7 @@ func c20RaceSub() *engine.Sub {
 		NewCase: func() any { return &c20RaceCase{} },
 		Run: func(ctx *engine.Ctx, c any) {
 			cs := c.(*c20RaceCase)
-			args := []string{"test", "-tags", "verif", "-race", "-count=1", "-json", "-run", "TestPairs|TestFirstUse"}
+			args := []string{"test", "-vet=off", "-tags", "verif", "-race", "-count=1", "-json", "-run", "TestPairs|TestFirstUse"}
 			if ov := os.Getenv("VERIF_OVERLAY"); ov != "" {
 				args = append(args, "-overlay", ov)
 			}
